@@ -15,6 +15,9 @@ type R = {A: int; B: string}
 // never used: its fields contain R's and its name sorts before R - an unqualified {A=..; B=..} is still an R
 type Pq = {A: int; B: string; C: bool}
 
+// the same fields as R, its name sorts after R: an unqualified {A=..; B=..} is an R; {Rz.A=..; B=..} names this one
+type Rz = {A: int; B: string}
+
 type G<T> = {V: T; Vs: []T}
 
 type Tq = {Fb: Tr; Fn: int}
